@@ -17,7 +17,7 @@
 From Coq Require Import List Bool NArith ZArith.
 Import ListNotations.
 From Ont Require Export Lib.Bytes Lib.CorrLib Model.StateDB.
-From Ont Require Import Model.Codec Gen.StateDBConsts.
+From Ont Require Import Gen.StateDBConsts.
 Local Open Scope N_scope.
 Open Scope bool_scope.
 
